@@ -35,9 +35,26 @@
 
 #include "layout.hh"
 
+#ifdef DWGREP_VERIF
+# include <map>
+#endif
+
 class scon
 {
   std::vector <uint8_t> m_buf;
+
+#ifdef DWGREP_VERIF
+  // Shadow map of live states: offset -> size.  Every con/get/des is checked
+  // against it (abort with a "DWGREP_VERIF scon:" diagnostic) and, when
+  // DWGREP_VERIF_SCON_TRACE names a file, logged there.
+  std::map <size_t, size_t> m_verif_live;
+  size_t m_verif_id = verif_next_id ();
+  static size_t verif_next_id ();
+  void verif_event (char kind, size_t loc, size_t size);
+public:
+  ~scon ();
+private:
+#endif
 
   void *
   mem (layout::loc loc)
@@ -52,6 +69,9 @@ public:
   State &
   get (layout::loc loc)
   {
+#ifdef DWGREP_VERIF
+    verif_event ('g', loc.m_loc, sizeof (State));
+#endif
     return *reinterpret_cast <State *> (this->mem (loc));
   }
 
@@ -59,6 +79,9 @@ public:
   void
   con (layout::loc loc, Args const&... args)
   {
+#ifdef DWGREP_VERIF
+    verif_event ('c', loc.m_loc, sizeof (State));
+#endif
     new (this->mem (loc)) State {args...};
   }
 
@@ -67,6 +90,9 @@ public:
   des (layout::loc loc)
   {
     this->get <State> (loc).~State ();
+#ifdef DWGREP_VERIF
+    verif_event ('d', loc.m_loc, sizeof (State));
+#endif
   }
 
   template <class State, class... Args>
